@@ -1,0 +1,17 @@
+//go:build verif
+
+// Read-only accessors used by the verification harness in /verif.  This file
+// is only compiled with the build tag "verif"; it adds no behaviour.
+
+package environment
+
+import "github.com/skx/evalfilter/v2/object"
+
+// VerifGlobals returns a copy of the global variables.
+func (e *Environment) VerifGlobals() map[string]object.Object {
+	out := make(map[string]object.Object, len(e.global))
+	for k, v := range e.global {
+		out[k] = v
+	}
+	return out
+}
